@@ -77,6 +77,14 @@ pub struct ExSender<T>(std::sync::mpsc::Sender<T>);
 #[verifier::reject_recursive_types(T)]
 pub struct ExSendError<T>(std::sync::mpsc::SendError<T>);
 
+#[verifier::external_type_specification]
+#[verifier::external_body]
+pub struct ExAddrParseError(std::net::AddrParseError);
+
+#[verifier::external_type_specification]
+#[verifier::external_body]
+pub struct ExOsStr(std::ffi::OsStr);
+
 // ---- paths and the file system (uninterpreted: the lexical meaning of std::path is ASSUMED) -------
 /// the text of a path
 pub uninterp spec fn path_str(p: &std::path::Path) -> Seq<char>;
@@ -103,6 +111,23 @@ pub assume_specification[ <std::path::PathBuf as Clone>::clone ](p: &std::path::
 
 pub assume_specification<P: core::convert::AsRef<std::path::Path>>[ std::path::Path::join::<P> ](base: &std::path::Path, rel: P) -> (r: std::path::PathBuf)
     ensures pathbuf_str(r) == join_str(path_str(base), asref_path_str(rel));
+
+pub assume_specification<S: core::convert::AsRef<std::ffi::OsStr> + ?Sized>[ std::path::Path::new::<S> ](s: &S) -> (r: &std::path::Path)
+    ensures path_str(r) == asref_path_str::<&S>(s);
+pub broadcast axiom fn axiom_asref_string(p: &String)
+    ensures #[trigger] asref_path_str::<&String>(p) == p@;
+
+pub uninterp spec fn osstr_str(s: &std::ffi::OsStr) -> Seq<char>;
+pub assume_specification[ std::path::Path::as_os_str ](p: &std::path::Path) -> (r: &std::ffi::OsStr)
+    ensures osstr_str(r) == path_str(p);
+pub assume_specification[ std::ffi::OsStr::is_empty ](s: &std::ffi::OsStr) -> (r: bool)
+    ensures r == (osstr_str(s).len() == 0);
+
+/// `process::exit` never returns
+pub assume_specification[ std::process::exit ](code: i32) -> !;
+
+pub assume_specification[ std::path::Path::to_path_buf ](p: &std::path::Path) -> (r: std::path::PathBuf)
+    ensures pathbuf_str(r) == path_str(p);
 
 pub assume_specification[ std::path::Path::exists ](p: &std::path::Path) -> (r: bool)
     ensures r == fs_exists(path_str(p));
@@ -184,6 +209,14 @@ pub uninterp spec fn rb_start<R>(r: R) -> int;
 pub uninterp spec fn rb_end<R>(r: R) -> int;
 pub axiom fn axiom_range_bounds(r: core::ops::Range<usize>)
     ensures #![trigger rb_start(r)] #![trigger rb_end(r)] rb_start(r) == r.start, rb_end(r) == r.end;
+/// the other range forms denote the same bounds relative to a sequence of length `len` (rb_end is only
+/// meaningful for forms with an upper bound; `drain` on an open-ended form is given by the `*_to_len` axioms)
+pub broadcast axiom fn axiom_range_bounds_auto(r: core::ops::Range<usize>)
+    ensures #![trigger rb_start(r)] #![trigger rb_end(r)] rb_start(r) == r.start, rb_end(r) == r.end;
+pub broadcast axiom fn axiom_rangeto_bounds(r: core::ops::RangeTo<usize>)
+    ensures #![trigger rb_start(r)] #![trigger rb_end(r)] rb_start(r) == 0, rb_end(r) == r.end;
+pub broadcast axiom fn axiom_rangetoinclusive_bounds(r: core::ops::RangeToInclusive<usize>)
+    ensures #![trigger rb_start(r)] #![trigger rb_end(r)] rb_start(r) == 0, rb_end(r) == r.end + 1;
 
 /// ASSUMPTION: `drain(a..b)` followed by dropping the iterator removes exactly the elements a..b
 /// (the removal is complete when the borrow ends).
